@@ -452,6 +452,21 @@ func (w *World) callsReaching(keys ...string) NPred {
 					return true
 				}
 			}
+			// function literals passed as arguments are assumed to be invoked by the callee
+			for _, a := range cs.Call.Args {
+				if lit, ok := ast.Unparen(a).(*ast.FuncLit); ok {
+					if lf := w.byLit[lit]; lf != nil {
+						v, ok := memo[lf]
+						if !ok {
+							v = w.Reaches(lf, p)
+							memo[lf] = v
+						}
+						if v {
+							return true
+						}
+					}
+				}
+			}
 		}
 		return false
 	}
